@@ -572,8 +572,13 @@ class AnalyzerContext:
             self.warn_on_unused_names,
         ) as st:
             self._st.append(st)
-            yield st
-            self._st.pop()
+            try:
+                yield st
+            finally:
+                # Pop the frame even if analysis of the enclosed form fails: a
+                # context which is reused afterwards (as in the REPL) must not keep
+                # the failed form's locals in scope.
+                self._st.pop()
 
     @contextlib.contextmanager
     def hide_parent_symbol_table(self):
